@@ -61,9 +61,21 @@ class Contract:
     def apply(self, interp, f, args, kwargs):
         loc = interp.bind_args(f, args, kwargs)
         a = f.node.args
-        names = [p.arg for p in a.posonlyargs + a.args + a.kwonlyargs]
         C = SpecCtx(interp, callsite=True, qualname=self.qualname)
-        r = self.spec(C, *[loc[n] for n in names])
+        if a.vararg is None and a.kwarg is None:
+            names = [p.arg for p in a.posonlyargs + a.args + a.kwonlyargs]
+            r = self.spec(C, *[loc[n] for n in names])
+        else:
+            pos = [loc[p.arg] for p in a.posonlyargs + a.args]
+            kw = {}
+            if a.vararg is not None:
+                pos += list(loc[a.vararg.arg])
+                kw.update({p.arg: loc[p.arg] for p in a.kwonlyargs})
+            else:
+                pos += [loc[p.arg] for p in a.kwonlyargs]
+            if a.kwarg is not None:
+                kw.update(loc[a.kwarg.arg])
+            r = self.spec(C, *pos, **kw)
         interp.last_apply_inlined = r is INLINE
         if r is INLINE:
             saved = interp.under_verification
